@@ -167,26 +167,32 @@ def in_section(txt, lineno):
 
 
 def check_props_file(pid, log):
-    """Compile Props/<pid>.v on its own and collect theorem names and assumptions."""
-    src = os.path.join(COQ, "theories", "Props", pid + ".v")
-    if not os.path.exists(src):
+    """Compile Props/<pid>.v and its supplements Props/<pid>[a-z].v on their own and collect theorem names and assumptions."""
+    pdir = os.path.join(COQ, "theories", "Props")
+    names = [pid] + sorted(f[:-2] for f in os.listdir(pdir) if re.fullmatch(re.escape(pid) + r"[a-z]\.v", f))
+    if not os.path.exists(os.path.join(pdir, pid + ".v")):
         return dict(exists=False, ok=False, theorems=[], assumptions=[], out="")
-    txt = open(src).read()
-    theorems = re.findall(r"^(?:Theorem|Lemma|Corollary)\s+(\w+)", txt, flags=re.M)
-    examples = re.findall(r"^Example\s+(\w+)", txt, flags=re.M)
+    res = dict(exists=True, ok=True, theorems=[], examples=[], closed=0, axioms=[], out="", secs=0.0, files=[])
     os.makedirs(os.path.join(BUILD, "props"), exist_ok=True)
-    rc, out, dt = sh(["coqc", "-Q", "theories", "Dec", "-w", COQW, "-o", os.path.join(BUILD, "props", pid + ".vo"),
-                      os.path.join("theories", "Props", pid + ".v")], cwd=COQ, timeout=900)
-    log.append(("props-" + pid, rc, dt, out[-3000:] if rc else ""))
-    closed = out.count("Closed under the global context")
-    axioms = []
-    for m in re.finditer(r"Axioms:\n((?:.+\n?)+?)(?:\n|$)", out):
-        for l in m.group(1).split("\n"):
-            mm = re.match(r"(\S+)\s*:", l)
-            if mm:
-                axioms.append(mm.group(1))
-    return dict(exists=True, ok=rc == 0, theorems=theorems, examples=examples, closed=closed,
-                axioms=sorted(set(axioms)), out=out, secs=dt)
+    for name in names:
+        txt = open(os.path.join(pdir, name + ".v")).read()
+        res["theorems"] += re.findall(r"^(?:Theorem|Lemma|Corollary)\s+(\w+)", txt, flags=re.M)
+        res["examples"] += re.findall(r"^Example\s+(\w+)", txt, flags=re.M)
+        rc, out, dt = sh(["coqc", "-Q", "theories", "Dec", "-w", COQW, "-o", os.path.join(BUILD, "props", name + ".vo"),
+                          os.path.join("theories", "Props", name + ".v")], cwd=COQ, timeout=900)
+        log.append(("props-" + name, rc, dt, out[-3000:] if rc else ""))
+        res["ok"] = res["ok"] and rc == 0
+        res["closed"] += out.count("Closed under the global context")
+        for m in re.finditer(r"Axioms:\n((?:.+\n?)+?)(?:\n|$)", out):
+            for l in m.group(1).split("\n"):
+                mm = re.match(r"(\S+)\s*:", l)
+                if mm:
+                    res["axioms"].append(mm.group(1))
+        res["out"] += out
+        res["secs"] += dt
+        res["files"].append("Props/%s.v" % name)
+    res["axioms"] = sorted(set(res["axioms"]))
+    return res
 
 
 # ----------------------------------------------------------------------------
